@@ -232,7 +232,7 @@ def step (c : Cfg) (s : State) : Ev → Option State
     if s.lock.grantable c.fair t then some { s with lock := s.lock.grant t } else none
   | .rAcq t =>
     match (s.tasks t).pc with
-    | .rWait ks => if s.lock.readers.contains t then some (s.setTask t ⟨.rLocked ks, (s.tasks t).script⟩) else none
+    | .rWait ks => if s.lock.readers.contains t ∧ s.lock.want t = none then some (s.setTask t ⟨.rLocked ks, (s.tasks t).script⟩) else none
     | _ => none
   | .rSample t e =>
     match (s.tasks t).pc with
@@ -267,7 +267,10 @@ def step (c : Cfg) (s : State) : Ev → Option State
         | .req =>
           if e = 0 then some (afterOpen { s with lock := s.lock.enqueue t true } t (i + 1) e0 sets kind rest) else none
         | .acq =>
-          if e = 0 ∧ s.lock.writer = some t then some (afterOpen s t (i + 1) e0 sets kind rest) else none
+          -- granted: it holds the exclusive lock and its request is no longer queued (a task whose
+          -- detached, dropped session still holds the lock waits like everybody else)
+          if e = 0 ∧ s.lock.writer = some t ∧ s.lock.want t = none then
+            some (afterOpen s t (i + 1) e0 sets kind rest) else none
       else none
   | .wSet t k v =>
     match (s.tasks t).pc, s.sess with
@@ -355,5 +358,39 @@ def Task.finished (x : Task) : Bool :=
 
 /-- all tasks `< n` have run their scripts to the end and no session is open -/
 def State.final (s : State) (n : Nat) : Prop := (∀ t, t < n → (s.tasks t).finished = true) ∧ s.sess.isNone = true
+
+end QbiceVerif.Phase
+
+/-! ## the concrete executors of the correspondence harness
+
+The harness's derived nodes are expressions over input keys (constants, reads, sums, a conditional on
+a read, an unordered group of reads); `Expr.eval` is the executor: value and the keys read, in
+evaluation order (only the branch taken is read). -/
+
+namespace QbiceVerif.Phase
+
+inductive Expr where
+  | const (n : Int)
+  | read (k : Key)
+  | add (a b : Expr)
+  | ifEq (c : Expr) (n : Int) (a b : Expr)
+  | sumAll (ks : List Key)
+  deriving Repr, Inhabited
+
+def Expr.eval (inp : Inputs) : Expr → Val × List Key
+  | .const n => (n, [])
+  | .read k => (inp k, [k])
+  | .add a b => ((a.eval inp).1 + (b.eval inp).1, (a.eval inp).2 ++ (b.eval inp).2)
+  | .ifEq c n a b =>
+    if (c.eval inp).1 = n then ((a.eval inp).1, (c.eval inp).2 ++ (a.eval inp).2)
+    else ((b.eval inp).1, (c.eval inp).2 ++ (b.eval inp).2)
+  | .sumAll ks => (ks.foldl (fun s k => s + inp k) 0, ks)
+
+/-- executor table of a program; a key without an expression is not a derived key of the program
+(the driver rejects cases that query one) -/
+def progExec (prog : Key → Option Expr) : Key → Inputs → Val × List Key :=
+  fun k inp => match prog k with
+    | some e => e.eval inp
+    | none => (0, [])
 
 end QbiceVerif.Phase
